@@ -263,7 +263,7 @@ def drive(sc):
          "tf": dict(NOTDONE), "independent_of_callers_arrays": True}
     try:
         c = EnOptConfig.model_validate(raw)
-    except (ValidationError, ValueError) as exc:
+    except Exception as exc:  # noqa: BLE001 - whatever is raised, the configuration was not accepted
         e["error"] = type(exc).__name__
         return [e], {"nontrivial": False, "key": str(sc), "rejected": True}
     e["accepted"] = True
